@@ -90,9 +90,9 @@ Lemma value_small_lt b ds : value_of_digits b ds < 256 -> value_of_digits b ds <
 Proof. unfold TWO64. lia. Qed.
 
 (* ---- one c-char of the extended grammar through char_item *)
-Lemma char_item_oct nxt m cs ds : digit_seq 8 cs ds -> (1 <= length cs <= 3)%nat ->
+Lemma char_item_oct k nxt m cs ds : digit_seq 8 cs ds -> (1 <= length cs <= 3)%nat ->
   ((length cs < 3)%nat -> forall d, ~ digit_char 8 nxt d) -> value_of_digits 8 ds < 256 ->
-  char_item CNarrow ((92 :: cs) ++ nxt :: m) = Some (value_of_digits 8 ds, nxt :: m).
+  char_item k ((92 :: cs) ++ nxt :: m) = Some (value_of_digits 8 ds, nxt :: m).
 Proof.
   intros Hcs Hl Hn Hv.
   destruct (digit_seq_cons_inv 8 cs ds Hcs ltac:(destruct cs; cbn in Hl; [lia | discriminate]))
@@ -116,9 +116,9 @@ Proof.
   apply drop_app_length'. rewrite Nat2N.id. cbn [length]. rewrite (digit_seq_length _ _ _ Hcs'). reflexivity.
 Qed.
 
-Lemma char_item_hex nxt m cs ds : digit_seq 16 cs ds -> cs <> [] ->
+Lemma char_item_hex k nxt m cs ds : digit_seq 16 cs ds -> cs <> [] ->
   (forall d, ~ digit_char 16 nxt d) -> nxt <> 120 -> nxt <> 88 -> value_of_digits 16 ds < 256 ->
-  char_item CNarrow ((92 :: 120 :: cs) ++ nxt :: m) = Some (value_of_digits 16 ds, nxt :: m).
+  char_item k ((92 :: 120 :: cs) ++ nxt :: m) = Some (value_of_digits 16 ds, nxt :: m).
 Proof.
   intros Hcs Hne Hn Hx1 Hx2 Hv.
   destruct (digit_seq_cons_inv 16 cs ds Hcs Hne) as (c1 & d1 & cs' & ds' & -> & -> & Hc1 & Hcs').
@@ -160,17 +160,18 @@ Proof.
   rewrite Hlen, N.ltb_irrefl. f_equal. f_equal. apply drop_app_length'. rewrite Nat2N.id. reflexivity.
 Qed.
 
-Lemma char_item_ucn (big : bool) nxt m cs ds : digit_seq 16 cs ds ->
+Lemma char_item_ucn k (big : bool) nxt m cs ds : digit_seq 16 cs ds ->
   length cs = (if big then 8 else 4)%nat -> value_of_digits 16 ds < 128 ->
-  char_item CNarrow ((92 :: (if big then 85 else 117) :: cs) ++ nxt :: m) = Some (value_of_digits 16 ds, nxt :: m).
+  char_item k ((92 :: (if big then 85 else 117) :: cs) ++ nxt :: m) = Some (value_of_digits 16 ds, nxt :: m).
 Proof.
   intros Hcs Hl Hv.
   destruct Hcs as [|c1 d1 cs1 ds1 Hc1 Hcs1]; [destruct big; discriminate|].
   destruct Hcs1 as [|c2 d2 cs2 ds2 Hc2 Hcs2]; [destruct big; discriminate|].
   set (v := value_of_digits 16 (d1 :: d2 :: ds2)) in *.
-  assert (Hchk : (((ckind_eqb CNarrow CNarrow || ckind_eqb CNarrow CUtf8) && (127 <? v))
-                  || (ckind_eqb CNarrow CUtf16 && (65535 <? v)) || (1114111 <? v)) = false).
-  { cbn [ckind_eqb orb andb]. destruct (N.ltb_spec 127 v); [lia|]. destruct (N.ltb_spec 1114111 v); [lia|]. reflexivity. }
+  assert (Hchk : (((ckind_eqb k CNarrow || ckind_eqb k CUtf8) && (127 <? v))
+                  || (ckind_eqb k CUtf16 && (65535 <? v)) || (1114111 <? v)) = false).
+  { destruct (N.ltb_spec 127 v); [lia|]. destruct (N.ltb_spec 65535 v); [lia|]. destruct (N.ltb_spec 1114111 v); [lia|].
+    rewrite !andb_false_r. reflexivity. }
   assert (Hsur : ((55296 <=? v) && (v <=? 57343)) = false).
   { destruct (N.leb_spec 55296 v); [lia | reflexivity]. }
   assert (Hv64 : v < TWO64) by (unfold TWO64; lia).
@@ -206,13 +207,13 @@ Proof.
                             | cs ds Hcs Hl Hv | cs ds Hcs Hl Hv]; subst.
   - split; [apply char_item_basic; [assumption | discriminate]|]. split; [exact (c_char_lt _ _ Hc)|].
     inversion Hc; subst; [exists v, []; auto | exists 92, [e]; repeat split; discriminate].
-  - split; [exact (char_item_oct nxt m cs ds Hcs Hl Hn Hv)|]. split; [assumption|].
+  - split; [exact (char_item_oct CNarrow nxt m cs ds Hcs Hl Hn Hv)|]. split; [assumption|].
     exists 92, cs; repeat split; discriminate.
-  - split; [exact (char_item_hex nxt m cs ds Hcs Hne Hn Hx1 Hx2 Hv)|]. split; [assumption|].
+  - split; [exact (char_item_hex CNarrow nxt m cs ds Hcs Hne Hn Hx1 Hx2 Hv)|]. split; [assumption|].
     exists 92, (120 :: cs); repeat split; discriminate.
-  - split; [exact (char_item_ucn false nxt m cs ds Hcs Hl Hv)|]. split; [lia|].
+  - split; [exact (char_item_ucn CNarrow false nxt m cs ds Hcs Hl Hv)|]. split; [lia|].
     exists 92, (117 :: cs); repeat split; discriminate.
-  - split; [exact (char_item_ucn true nxt m cs ds Hcs Hl Hv)|]. split; [lia|].
+  - split; [exact (char_item_ucn CNarrow true nxt m cs ds Hcs Hl Hv)|]. split; [lia|].
     exists 92, (85 :: cs); repeat split; discriminate.
 Qed.
 
@@ -295,4 +296,52 @@ Proof.
   - assert (E0 : (0 + N.of_nat (length (v :: v2 :: vs')) =? 0) = false) by (apply N.eqb_neq; cbn [length]; lia).
     assert (E1 : (0 + N.of_nat (length (v :: v2 :: vs')) =? 1) = false) by (apply N.eqb_neq; cbn [length]; lia).
     rewrite E0, E1. cbn [ckind_eqb andb]. cbv iota. rewrite sext32_mod. reflexivity.
+Qed.
+
+(* ---- one c-char of the extended grammar after a prefix: u8'x' u'x' U'x' L'x' (ASCII values) *)
+Lemma c_char_ext_item_any k nxt sp v m : c_char_ext nxt sp v -> v < 128 ->
+  char_item k (sp ++ nxt :: m) = Some (v, nxt :: m).
+Proof.
+  intros H Hv. inversion H as [sp0 v0 Hc | cs ds Hcs Hl Hn Hv' | cs ds Hcs Hne Hn Hx1 Hx2 Hv'
+                               | cs ds Hcs Hl Hv' | cs ds Hcs Hl Hv']; subst.
+  - inversion Hc as [c H1 H2 H3 H4 | e v' He]; subst.
+    + cbn [app char_item]. destruct (N.eqb_spec v 92); [contradiction|].
+      assert ((negb (ckind_eqb k CNarrow) && (128 <=? v)) = false) as ->.
+      { apply andb_false_iff. right. apply N.leb_gt. assumption. }
+      reflexivity.
+    + cbn [app char_item]. change (92 =? 92) with true. cbv iota.
+      destruct (simple_esc_model _ _ He) as [-> _]. reflexivity.
+  - exact (char_item_oct k nxt m cs ds Hcs Hl Hn Hv').
+  - exact (char_item_hex k nxt m cs ds Hcs Hne Hn Hx1 Hx2 Hv').
+  - exact (char_item_ucn k false nxt m cs ds Hcs Hl Hv').
+  - exact (char_item_ucn k true nxt m cs ds Hcs Hl Hv').
+Qed.
+
+Theorem prefixed_char_literal_ext pre sp v : c_char_ext 39 sp v -> v < 128 ->
+  pre = [117; 56] \/ pre = [117] \/ pre = [85] \/ pre = [76] ->
+  char_literal_to_ll (pre ++ 39 :: sp ++ [39]) = Some (Z.of_N v).
+Proof.
+  intros Hc Hv Hp.
+  destruct (c_char_ext_item _ sp v [] Hc) as (_ & _ & c0 & r0 & Esp & Hq & Hnl).
+  assert (Hloop : forall k fuel, k <> CNarrow -> char_loop (S (S fuel)) k (sp ++ [39]) 0 0 = Some (v, 1, [39])).
+  { intros k fuel Hk. pose proof (c_char_ext_item_any k 39 sp v [] Hc Hv) as Hitem. subst sp.
+    cbn [app char_loop].
+    assert (Hshape : exists y ys, r0 ++ [39] = y :: ys) by (destruct r0; cbn; eauto).
+    destruct Hshape as (y & ys & Ey). rewrite Ey.
+    assert (((c0 =? 39) || (c0 =? 10)) = false) as ->.
+    { apply orb_false_iff; split; apply N.eqb_neq; assumption. }
+    cbn [N.leb N.compare andb]. rewrite <- Ey. change (c0 :: r0 ++ [39]) with ((c0 :: r0) ++ [39]).
+    rewrite Hitem.
+    assert (item_too_large k v = false) as ->.
+    { unfold item_too_large.
+      assert ((255 <? v) = false) as -> by (apply N.ltb_ge; lia).
+      assert (N.shiftr v 16 = 0) as ->.
+      { rewrite N.shiftr_div_pow2. apply N.div_small. change (2 ^ 16) with 65536. lia. }
+      assert (N.shiftr v 32 = 0) as ->.
+      { rewrite N.shiftr_div_pow2. apply N.div_small. change (2 ^ 32) with 4294967296. lia. }
+      rewrite !andb_false_r. reflexivity. }
+    change (N.shiftl 0 8 mod TWO64) with 0. rewrite N.lor_0_l. reflexivity. }
+  subst sp.
+  destruct Hp as [ -> | [ -> | [ -> | -> ] ] ]; unfold char_literal_to_ll; cbn [app length];
+    rewrite Hloop by discriminate; cbn [N.eqb Pos.eqb ckind_eqb andb]; reflexivity.
 Qed.
